@@ -123,6 +123,8 @@ def eval_case(case):
                "payload": {"compose": {"id": cid, "type": "production" if x["ctype"] != "production" else "test"},
                            "product": {"name": "Name", "short": x["short"], "version": ver, "type": x["type"]},
                            "variants": {"Foo": {"id": "Foo", "uid": "Foo", "name": "Foo", "type": "variant", "arches": ["x86_64"], "paths": {}}}}}
+        if case.get("rseed", 0) % 3 == 1:
+            del doc["payload"]["compose"]["type"]       # "exist only inside the id": no stored type at all (otherwise a stale one)
         if x["layered"]:
             doc["payload"]["product"]["is_layered"] = True
             doc["payload"]["base_product"] = {"name": "Base", "short": x["bpshort"], "version": bpver, "type": x["bptype"]}
